@@ -20,3 +20,8 @@ mod read_int;
 fn to_usize(r: ops::Range<u32>) -> ops::Range<usize> {
     r.start.usize()..r.end.usize()
 }
+
+#[cfg(kani)]
+mod verif_shim {
+    include!(concat!(env!("LIBTW2_VERIF_HARNESS"), "/shim_btree.rs"));
+}
